@@ -76,6 +76,12 @@ FAULT_KINDS = ('analyser_raises', 'unknown_method', 'bad_args', 'unserialisable'
 
 
 def gen_fault(r, kind, uid):
+    if kind == 'analyser_raises' and r.random() < 0.4:
+        # a relative import in a buffer that is not inside a package
+        v = r.randrange(3)
+        src = ('from . import zqa\nzqa.\n', 'from .zqa import \n', 'from . import zqb\nzr = zqb\n')[v]
+        pos = ([2, 4], [1, 17], [2, 7])[v]
+        return {'op': ('assist', 'assist', 'location')[v], 'source': src, 'position': pos, 'file': 'zqmain.py', 'fault': kind}
     if kind == 'analyser_raises':
         name = r.choice(('len', 'print', 'int', 'ValueError'))
         return {'op': 'location', 'source': '%s = 1\nzr = %s\n' % (uid, name), 'position': [2, 5 + r.randrange(1, len(name))],
@@ -335,6 +341,7 @@ class Session(object):
         self.probes = {'reply_over_64KiB': 0, 'request_over_64KiB': 0, 'request_over_1MiB': 0, 'serialise_fallback': 0,
                        'poll_timed_out_while_idle': 0, 'failure_then_success': 0, 'reply_list_over_65535': 0}
         self.ref_project = None
+        self.iso_project = None      # the same history without the requests that failed
 
     def vio(self, sig, detail):
         self.vios.append({'sig': sig, 'detail': detail[:3000]})
@@ -367,6 +374,32 @@ class Session(object):
         except Exception as e:
             return 'exc', e
         raise ValueError(op)
+
+    def isolated(self, call):
+        """What the reply would be had the earlier failing requests never been sent: the in-process API on a
+        project that receives only the requests that succeeded.  Returns ('ok', value) / ('exc', e) / None."""
+        op = call['op']
+        if op == 'configure':
+            try:
+                cfg = config_of(call, self.src_root(call))
+                self.iso_project = Project(cfg['sources'], dyn_modules=cfg.get('dyn_modules'))
+            except Exception:
+                pass
+            return None
+        if op not in ('assist', 'location', 'lint') or self.iso_project is None:
+            return None
+        p = self.iso_project
+        fn = os.path.join(self.src_root(), call['file'])
+        src = full_source(call)
+        try:
+            with p.check_changes():
+                if op == 'assist':
+                    return 'ok', assistant.assist(p, src, full_position(call), fn)
+                if op == 'location':
+                    return 'ok', assistant.location(p, src, full_position(call), fn)
+                return 'ok', [r[:4] for r in linter.lint(p, src, fn)]
+        except Exception as e:
+            return 'exc', e
 
     def src_root(self, call=None):
         v = call.get('variant', 'a') if call is not None else self.cur
@@ -484,6 +517,15 @@ class Session(object):
                                  'call %d: client message %r != in-process exception message %r' % (idx, msg, str(exp[1])))
                 prev_failed = True
                 log.add('raised', idx, op, type(e).__name__, strip_root(msg, self.root)[:200])
+
+            # ---- isolation: a request that failed has not changed this reply
+            if exp[0] == 'ok' and got[0] == 'ok' and op in ('assist', 'location', 'lint', 'configure'):
+                iso = self.isolated(call)
+                if iso is not None and (iso[0] != 'ok' or norm(iso[1]) != norm(got[1])):
+                    self.vio('C15/isolation/later-reply-changed/%s' % op,
+                             'call %d (%s): reply %r, but with the failing requests before it left out the in-process API answers %r' % (
+                                 idx, _brief(call), _brief(strip_root(norm(got[1]), self.root)),
+                                 _brief(strip_root(norm(iso[1]), self.root)) if iso[0] == 'ok' else repr(iso[1])))
 
             # ---- isolation: the server survives every request
             live = [p for p in w.procs if p.returncode is None]
